@@ -4,10 +4,16 @@
  * situation the properties promise: on the right module, while that module is the context's current module. */
 #define V_CB_FRAME g.evt_cb_calls, g.evt_cb_mod, g.evt_cb_q, g.evt_cb_which, g.on_start_calls, g.on_stop_calls, g.on_eval_calls, \
                    g_mod->state, g_mod->tb.tokens, g_mod->stats.action_ctr, g_mod->stats.last_seen, g_mod->stats.sent_msgs, g_mod->batch.len, \
-                   g_recvs->len, g_recvs->top, g_ctx->stats.running_modules, g_ctx->quit, g_ctx->quit_code, g_errno
+                   g_recvs->len, g_recvs->top, g_ctx->stats.running_modules, g_ctx->quit, g_ctx->quit_code, g_errno, g.sys_msgs, g.sys_stopped, g.sys_sender, g.sys_kind
 #define V_CB_REQ(self) ((self) == g_mod && V_RW_OK(g_mod, sizeof(m_mod_t)) && g_mod->ctx == g_ctx && V_RW_OK(g_ctx, sizeof(m_ctx_t)) \
                         && g_ctx->curr_mod == g_mod && g_mod->recvs == g_recvs && V_S_OK(g_recvs))
-#define V_CB_ENS       (v_state_valid(g_mod->state) && V_S_OK(g_recvs) && (g_recvs->len == 0) == (g_recvs->top == NULL) \
+/* a callback changes the lifecycle state of its own module only by deregistering it (then the nested deregistration emitted its
+ * one MOD_STOPPED); nested start/stop/pause of the own module from inside a callback is covered by the per-function invariants only */
+#define V_CB_ENS       (v_state_valid(g_mod->state) && (g_mod->state == V_OLD(g_mod->state) || g_mod->state == M_MOD_ZOMBIE) \
+                        && g.sys_stopped == V_OLD(g.sys_stopped) + ((g_mod->state == M_MOD_ZOMBIE && V_OLD(g_mod->state) != M_MOD_ZOMBIE) ? 1 : 0) \
+                        && g.sys_msgs == V_OLD(g.sys_msgs) + ((g_mod->state == M_MOD_ZOMBIE && V_OLD(g_mod->state) != M_MOD_ZOMBIE) ? 1 : 0) \
+                        && g_ctx->stats.running_modules == V_OLD(g_ctx->stats.running_modules) - ((g_mod->state == M_MOD_ZOMBIE && V_OLD(g_mod->state) == M_MOD_RUNNING) ? 1 : 0) \
+                        && V_S_OK(g_recvs) && (g_recvs->len == 0) == (g_recvs->top == NULL) \
                         && g_mod->tb.tokens <= V_OLD(g_mod->tb.tokens) && g_ctx->curr_mod == g_mod)
 
 V_CONTRACT
@@ -21,4 +27,23 @@ void v_become_evt(m_mod_t *self, const m_queue_t *const evts)
 V_REQUIRES(V_CB_REQ(self) && V_Q_OK(evts) && evts->len > 0)                                     /*@C15.callback-runs-as-current-module*/
 V_ASSIGNS(V_CB_FRAME)
 V_ENSURES(g.evt_cb_calls == V_OLD(g.evt_cb_calls) + 1 && g.evt_cb_mod == self && g.evt_cb_q == evts && g.evt_cb_which == 1 && V_CB_ENS)
+;
+
+V_CONTRACT
+bool v_on_start(m_mod_t *self)
+V_REQUIRES(V_CB_REQ(self))                                                                     /*@C15.callback-runs-as-current-module*/
+V_ASSIGNS(V_CB_FRAME)
+V_ENSURES(g.on_start_calls == V_OLD(g.on_start_calls) + 1 && g.on_stop_calls == V_OLD(g.on_stop_calls) && g.on_eval_calls == V_OLD(g.on_eval_calls) && V_CB_ENS)
+;
+V_CONTRACT
+bool v_on_eval(m_mod_t *self)
+V_REQUIRES(V_CB_REQ(self))                                                                     /*@C15.callback-runs-as-current-module*/
+V_ASSIGNS(V_CB_FRAME)
+V_ENSURES(g.on_eval_calls == V_OLD(g.on_eval_calls) + 1 && g.on_stop_calls == V_OLD(g.on_stop_calls) && g.on_start_calls == V_OLD(g.on_start_calls) && V_CB_ENS)
+;
+V_CONTRACT
+void v_on_stop(m_mod_t *self)
+V_REQUIRES(V_CB_REQ(self))                                                                     /*@C15.callback-runs-as-current-module*/
+V_ASSIGNS(V_CB_FRAME)
+V_ENSURES(g.on_stop_calls == V_OLD(g.on_stop_calls) + 1 && g.on_start_calls == V_OLD(g.on_start_calls) && g.on_eval_calls == V_OLD(g.on_eval_calls) && V_CB_ENS)
 ;
